@@ -168,7 +168,7 @@ def decorate(rng, prog):
 
 
 def gen_programs(rng, n, consts):
-    prof = progs.Profile(p_doc=0.45, p_rename_type=0.1, allow_const=consts, p_unannotated=0.1, n_items=(1, 6))
+    prof = progs.Profile(p_doc=0.45, p_rename_type=0.1, allow_const=consts, p_unannotated=0.1, n_items=(1, 6), p_digit_variant=0.08)
     g = progs.ProgGen(rng, prof)
     out = []
     for _ in range(n):
@@ -763,6 +763,9 @@ WITNESSES = [
     ('swift', {}, '#[typeshare]\npub struct A { pub r#let: String, pub inout: u8 }\n', 'C10-swift-label'),
     # digit-initial variant names get `_` in front - at the declaration, in CodingKeys and in every switch arm alike (seeded C10_h)
     ('swift', {}, '#[typeshare]\n#[serde(tag = "t", content = "c")]\npub enum E { _2FaCode(String), _3rdParty { x: u8 }, _4Unit, Plain(u8) }\n', None),
+    # fix 31 of /repo: the String-backed (unit) enum does the same (`case _1st`, with a rename `case _3rd = "x"`); before: `case 1st = "_1st"`
+    ('swift', {}, '#[typeshare]\npub enum U { _1st, _2nd }\n', None),
+    ('swift', {}, '#[typeshare]\npub enum U { _1st, _2nd, #[serde(rename = "x")] _3rd, Plain }\n', None),
     ('python', {}, '#[typeshare]\npub type A<T> = Vec<T>;\n', None),
     ('python', {}, '#[typeshare]\npub type A<T> = Vec<T>;\n#[typeshare]\npub type B<K> = HashMap<String, Vec<K>>;\n#[typeshare]\npub struct S<T> { pub a: A<T>, pub b: B<u8> }\n'
                    '#[typeshare]\npub type C = A<u8>;\n', None),
@@ -784,6 +787,8 @@ def fixed_witness_label(lang, src):
     if lang == 'python':
         return 'fixed:C10-python-generic-alias'
     if lang == 'swift':
+        if 'pub enum U' in src:
+            return 'fixed:C10-swift-unit-digit-case'
         return 'fixed:C10-swift-key-keyword' if 'tag = "case"' in src else 'fixed:swift-digit-variant'
     return 'fixed:C10-scala-toplevel-alias' if 'pub type' in src else 'fixed:C10-scala-package-brace'
 
